@@ -15,7 +15,10 @@ def run(ck):
     harness, model = asmk.setup(ck, PROP)
     rng = ck.rng
     thorough = ck.tier == "thorough"
-    incbin = {"b5.bin": bytes(range(5)), "b0.bin": b"", "k4p.bin": bytes(i % 251 for i in range(4097)), "k9.bin": bytes(i % 241 for i in range(9000))}
+    incbin = {"b5.bin": bytes(range(5)), "b0.bin": b"", "k4p.bin": bytes(i % 251 for i in range(4097)), "k9.bin": bytes(i % 241 for i in range(9000)),
+              # files as large as the whole address space, and larger (only at address 0 does the first of them fit)
+              "k64k.bin": bytes(i % 239 for i in range(65536)), "k64k1.bin": bytes(i % 239 for i in range(65537)),
+              "k70k.bin": bytes(i % 233 for i in range(70000)), "k128k.bin": bytes(i % 229 for i in range(131072))}
     kinds = []   # (arch, stmt text, length, trailer)
     for arch in asmk.ARCHES:
         k = [("@db 7", 1, ""), ("@db 7, 8", 2, ""), ('@db "abc"', 3, ""), ('@db "é€"', 5, ""), ("@db fwdv", 1, "@defn fwdv, 9"),
@@ -46,6 +49,12 @@ def run(ck):
     for t, L in [("@org $ffff\n@db fwdv, fwdv\nendl:\n@defn fwdv, 1\n", 2), ("@org $fffe\n@dw fwdv, fwdv\nendl:\n@defn fwdv, 1\n", 4),
                  ("@org $ffff\n ld a, 5\nendl:\n", 2)]:
         progs.append(("z80", t)); meta.append((int(t.split("\n")[0][6:], 16), L))
+    for arch in asmk.ARCHES:
+        for fn, L in (("k64k.bin", 65536), ("k64k1.bin", 65537), ("k70k.bin", 70000), ("k128k.bin", 131072)):
+            for start in ((0, 1, 2, 0x8000) if arch == "z80" else (0, 1)):
+                progs.append((arch, "@org %d\n@incbin \"%s\"\nendl:\n\n" % (start, fn))); meta.append((start, L))
+            if arch == "z80":
+                progs.append((arch, "@incbin \"%s\"\nendl:\n\n" % fn)); meta.append((0, L))       # no @org at all
     for arch, stmt, L, trailer in kinds:
         for k in (range(0, L + 2) if L < 64 else sorted({1, 2, 4095, 4096, L - 4097, L - 4096, L - 4095, L - 1, L, L + 1})):
             start = TOP - k
